@@ -158,6 +158,9 @@ def build(rng, kind, nin=1, pos=0, ht=1, mutate=None, annex=None, enc=None, wn=3
         L = wn - 1 - 19 * 524
         spk = (b"\x4d\x08\x02" + bytes(520) + b"\x75") * 19 + push(bytes(L - 2)) + b"\x75" + b"\x51"
         assert len(spk) == wn
+    elif kind == "p2sh-smallint":   # scriptSig <OP_n> <redeem = OP_n OP_EQUAL>: OP_1NEGATE, OP_1 .. OP_16 are push operations (BIP16 push-only rule)
+        opn = [0x4f] + list(range(0x51, 0x61))
+        redeem = bytes([opn[wn % 17], 0x87]); spk = bytes([0xa9, 20]) + h160(redeem) + b"\x87"
     elif kind == "bare-fad":        # FindAndDelete: the scriptSig itself runs CHECKSIGVERIFY and contains pushes of the signature it verifies
         sk, pk = K.new(); spk = b"\x75\x51"
     elif kind == "p2wsh-hashlock":  # a witness script that has the byte shape of pay-to-script-hash: an ordinary hash lock
@@ -248,6 +251,9 @@ def build(rng, kind, nin=1, pos=0, ht=1, mutate=None, annex=None, enc=None, wn=3
     elif kind == "p2wsh-item":
         tx.wit[pos] = [bytes(wn), ws]
         valid = wn <= 520
+    elif kind == "p2sh-smallint":
+        tx.vin[pos][2] = bytes([opn[wn % 17]]) + push(redeem if mutate != "scripthash" else redeem + b"\x61")
+        valid = mutate != "scripthash"
     elif kind == "bare-fad":
         # the script code is the scriptSig with every push of the signature removed - wherever it stands: first, in the middle, LAST
         tail = {0: b"", 1: b"\x61", 2: b""}[wn % 3]                                         # what follows the second push of the signature
